@@ -24,6 +24,7 @@ INFO = dict(
 
 def bounds(tier):
     return dict(addresses="all 2^32 (IPv4) / 2^128 (IPv6) addresses, all pairs", hash="all functions text -> 128-bit digest",
+                symbolic_prefixes="every user prefix of length %s (network bits symbolic), two arbitrary addresses on one instance" % ("8" if tier == "quick" else "0,1,7,8,9,16,23,24,25,31,32 and pairs (8,12),(16,24)"),
                 v4_configs=[ipc.cfg_key(c) for c in ipc.configs_v4(tier)], v6_host_bits=[c["B"] for c in ipc.configs_v6(tier)],
                 joint_runs="two requests on one shared instance" + (" (all v4 configs; v6 B in {0,8})" if tier == "thorough" else " (v4: prefixes none/classes, B in {0,8})"),
                 bit_function="_generate_bit_from_hash: strings of length <= 3 (symbolic characters), two calls")
@@ -50,6 +51,14 @@ def items(tier, seed):
         for b in (0, 8):
             for lo, hi in ipc.shards(129, 16):
                 out.append(Item("C01", "pair_joint", dict(family=6, cfg=dict(prefixes=None, networks=None, B=b), ms=[lo, hi]), budget_s=3000, obligation="H2-pair-joint-v6"))
+    for L in ((8,) if tier == "quick" else (0, 1, 7, 8, 9, 16, 23, 24, 25, 31, 32)):
+        for B in ((0, 8) if tier == "quick" else (0, 8, 12)):
+            for lo, hi in ipc.shards(33, 4 if L <= 9 else 11):
+                out.append(Item("C01", "pair_sym_prefix", dict(lengths=[L], B=B, ms=[lo, hi]), budget_s=600 if tier == "quick" else 2400, obligation="H2c-pair-under-every-user-prefix"))
+    if tier == "thorough":
+        for L1, L2 in ((8, 12), (16, 24)):
+            for lo, hi in ipc.shards(33, 8):
+                out.append(Item("C01", "pair_sym_prefix", dict(lengths=[L1, L2], B=0, ms=[lo, hi]), budget_s=3000, obligation="H2c-pair-under-every-user-prefix"))
     for n in range(0, 4):
         out.append(Item("C01", "bit_function", dict(n=n), budget_s=60, obligation="H3-bit-function"))
     return out
@@ -228,4 +237,61 @@ def bit_function(item, res):
     res["vacuity"] = "witnessed" if paths else "VACUOUS"
 
 
-HARNESSES = {"pair_summary": pair_summary, "pair_joint": pair_joint, "bit_function": bit_function}
+def pair_sym_prefix(item, res):
+    """H2c: prefix preservation for two arbitrary addresses under *every* user prefix (pair) of the given lengths."""
+    import ipaddress
+    lengths, B = item.params["lengths"], item.params["B"]
+    W = 32
+    a, sa = ipc.sym_addr("a", W)
+    lo, hi = item.params.get("ms", [0, W + 1])
+    ex = Explorer(deadline=time.time() + item.budget_s)
+    found = []
+
+    def h(ex_):
+        an, tops = ipc.make_with_symbolic_prefix(ex_, lengths, B)
+        ex_.path_data["tops"] = tops
+        mm = lo + ex_.choice(hi - lo, "shared-prefix")
+        b = ipc.related(a, mm, "b_free", W)
+        oa = ipc.out_bv(an.anonymize(sa), W)
+        ob = ipc.out_bv(an.anonymize(SInt.unsigned(b) if not z3.is_bv_value(b) else b.as_long()), W)
+        res["finals"] += 1
+        m = ex_.model(ipc.cpl_violation(a, b, oa, ob, W))
+        if m is None:
+            res["finals_unsat"] += 1
+            return ("ok", oa, ob, b, tops)
+        found.append((m, b, tops))
+        return ("cex", oa, ob, b, tops)
+    paths = ex.explore(h)
+    harness.add_stats(res, ex)
+
+    def cfg_of(m, tops):
+        pf = []
+        for t, L in tops:
+            v = (ev(m, t) << (32 - L)) if L else 0
+            pf.append("%s/%d" % (ipaddress.IPv4Address(v), L))
+        return dict(prefixes=pf, networks=None, B=B)
+    nval = 0
+    for p in paths:
+        if p.exc is not None and p.model is not None:
+            found.append((p.model, a, p.extra.get("tops", [])))
+        elif p.model is not None and nval < 20:
+            cfg = cfg_of(p.model, p.result[4])
+            av, bv = ev(p.model, a), ev(p.model, p.result[3])
+            _, rr = ipc.md5_table_for(p.model, cfg, 4, [["a", av], ["a", bv]])
+            if rr["results"] != [ev(p.model, p.result[1]), ev(p.model, p.result[2])]:
+                raise core.EngineError("concolic mismatch under symbolic prefix %r" % (cfg["prefixes"],))
+            nval += 1
+            if len(res["samples"]) < 2:
+                res["samples"].append(dict(prefixes=cfg["prefixes"], B=B, a=av, b=bv, images=rr["results"]))
+    res["validated"] += nval
+    for m, b, tops in found[:3]:
+        cfg = cfg_of(m, tops)
+        wit, rp = _pair_witness(m, cfg, 4, a, b, True)
+        res["violations"].append(dict(description="common-prefix length not preserved under user prefix %r" % cfg["prefixes"], witness=wit, tags=["cpl"], replay=rp))
+        res["status"] = "violated"
+    res["vacuity"] = "witnessed" if any(p.model is not None for p in paths) else "VACUOUS"
+    if res["vacuity"] != "witnessed":
+        raise core.EngineError("no feasible path")
+
+
+HARNESSES = {"pair_summary": pair_summary, "pair_joint": pair_joint, "bit_function": bit_function, "pair_sym_prefix": pair_sym_prefix}
